@@ -6,6 +6,10 @@
   per-rule injective name maps the engine's run on the renamed knowledge base is the
   image of its run on the original one.
   PROVED HERE
+    * `C11_engine` — for the ENGINE MODEL on the whole control language (calls, `!`, `,`, `;`, `not`, `time`) without other
+      built-in predicates and function terms: request by request, the answers against the renamed knowledge base are the
+      renamed answers against the original one, with the same output.  `C11_machine_with_cut` is the same for the reference
+      machine with cut.
     * `C11_machine` — for the reference machine of `Spec/PureMachine.lean` (whose runs the engine model's requests are, C01) on
       the fragment without built-in predicates and function terms (calls with atom functors, `,`, `;`, `not`): if `kb'` is
       `kb` with the variable names of EACH RULE rewritten by an injective map of its own (`KBRen`; the maps may differ from
@@ -22,6 +26,7 @@
 -/
 import SuironVerif.Model.Goal
 import SuironVerif.Lemmas.NameBlindKB
+import SuironVerif.Lemmas.NameBlindEngine
 namespace Suiron.C11
 
 mutual
@@ -174,6 +179,33 @@ theorem C11_machine (fo : FloatOps) {kb kb' : KB} (hren : KBRen kb kb') (hok : k
     ∃ ν, Inj ν ∧ (∀ i, i ≤ c → ν i = idN i) ∧ MRun fo kb' ⟨[.goals [q] []], c, out⟩ (mapTr ν tr) :=
   machine_blind_to_names fo (kbRel_of_kbRen hren hok) q c hq out h
 
+
+open Suiron.Blind Suiron.Spec in
+/-- C11 FOR THE REFERENCE MACHINE WITH CUT (`Spec/GroupMachine.lean`): the same for the whole control language — calls, `!`,
+    conjunctions and disjunctions nested to any depth, `not`, `time` — still without other built-in predicates and function
+    terms: renaming commutes with everything the cut does (marking the end markers, cutting the stack back to a height) -/
+theorem C11_machine_with_cut (fo : FloatOps) {kb kb' : KB} (hren : KBRen kb kb') (hok : kbOK kb) (q : Goal) (c : Nat)
+    (hq : goodG c q = true) (out : List String) {tr : List (Option Subst × List String)}
+    (h : Grp.CRun fo kb ⟨[.goals [.g q 0] []], c, out⟩ tr) :
+    ∃ ν, Inj ν ∧ (∀ i, i ≤ c → ν i = idN i) ∧ Grp.CRun fo kb' ⟨[.goals [.g q 0] []], c, out⟩ (mapTr ν tr) :=
+  group_machine_blind_to_names fo (kbRel_of_kbRen hren hok) q c hq out h
+
+open Suiron.Blind Suiron.Spec in
+/-- C11 FOR THE ENGINE MODEL: the i-th request on the base node of a query against the renamed knowledge base returns the
+    renamed answer (or none) of the i-th request against the original one, with the same text written so far — for every
+    knowledge base of the fragment (rule bodies: calls with atom functors, `!`, `,`, `;`, `not`, `time` in which no `!` is
+    written directly; no other built-in predicate, no function term), every query term with an atom functor, and whatever the
+    timer ticks of the two sessions.  (From `C11_machine_with_cut`, the refinement of C01 for both knowledge bases, and the
+    determinism of the machine.) -/
+theorem C11_engine (fo : FloatOps) {kb kb' : KB} (hren : KBRen kb kb') (hok : kbOK kb)
+    (hkb : ∀ key rs, kb.get key = some rs → ∀ r ∈ rs, r.body.isNil = true ∨ Grp.okG r.body = true)
+    (q : Term) (g0 g1 g1' : G) (node node' : Node) (hq : good g0.counter q = true ∧ callOK q = true)
+    (hmk : mkNode fo.showF kb (.call q) [] g0 = .ok (node, g1)) (hmk' : mkNode fo.showF kb' (.call q) [] g0 = .ok (node', g1'))
+    (hg : GOK g0) (fs fs' : List Nat) :
+    ∃ ν, Inj ν ∧ (∀ i, i ≤ g0.counter → ν i = idN i) ∧
+      ∀ (i : Nat) x y, (askOut fo kb' fs' node' g1')[i]? = some x → (mapTr ν (askOut fo kb fs node g1))[i]? = some y → x = y :=
+  engine_blind_to_names_cut fo hren hok (Grp.okKB_of_rules kb hkb) q g0 g1 g1' node node' hq hmk hmk' hg fs fs'
+
 /-! non-vacuity: `p($X, $Y) :- q($Y, $X).  q(a, b).` and the same program with `$X` and `$Y` exchanged in the first rule and
     `$X` written for nothing in the second; the query `p($A, $B)` has a run with one answer on the first. -/
 def swapXY (s : String) : String := if s = "$X" then "$Y" else if s = "$Y" then "$X" else s
@@ -226,5 +258,8 @@ example : ∃ σ, MRun fo0 kbA ⟨[.goals [.call (c2 "p" (.var 1 "$A") (.var 2 "
       exact PSteps.refl
     case rest => exact MRun.fin .refl .nil
 example : Blind.goodG 2 (.call (c2 "p" (.var 1 "$A") (.var 2 "$B"))) = true := by decide
+/-- a rule with a cut lies in the fragment too: `first($X) :- q($X, $Y), !.` -/
+example : Blind.ruleOK ⟨.cplx (.cons (.atom "first") (.cons (.var 0 "$X") .nil)),
+    .and (.cons (.call (c2 "q" (.var 0 "$X") (.var 0 "$Y"))) (.cons (.bip "!" none) .nil))⟩ := ⟨⟨by decide, by decide⟩, by decide⟩
 
 end Suiron.C11
